@@ -11,10 +11,12 @@
    to evaluate).  The converse - everything the gate allows compiles - is proved for the canonical
    spelling of the query (C07_accept_canonical, a corollary of the C10/C17 round trip: the gate,
    with the shape invariants of the parser, is exactly what acceptance of the printed text needs);
-   "in any other spelling" (shorthand, blanks, aliases) is carried by the correspondence (every
-   generated well-typed query in random spellings compiles to the generated AST): partial. *)
+   and for every free spelling of it - blank space, either kind of quotes, dot shorthand, bare names
+   after `..` (C07_accept_spelled); the remaining spellings (redundant parentheses, word aliases at
+   text level, exponents) are carried by the correspondence (every generated well-typed query in
+   random spellings compiles to the generated AST). *)
 From JP Require Import Base Json Syntax Lex Parse Serialize TokPrint Printable Reparsable Gate NormDomain TokensOk
-                       ParseProofs RoundTrip.
+                       FreeSpell ParseProofs RoundTrip FreeParseProofs.
 
 Theorem C07_gate :
   forall (E : env) re_ok (text : ustr) (q : query),
@@ -45,6 +47,16 @@ Theorem C07_accept_canonical :
     compile E re_ok t = Ok (norm_query q).
 Proof. exact RoundTrip.accept_canonical. Qed.
 Print Assumptions C07_accept_canonical.
+
+(* ... and in every free spelling (blank space, either kind of quotes, dot shorthand, bare names
+   after `..`: spec/FreeSpell.v): a structure in the domain compiles from each of its spellings *)
+Theorem C07_accept_spelled :
+  forall (E : env) re_ok (q : query) (t : ustr),
+    tokens_ok E = true -> e_well_typed E = true -> e_unicode_escape E = true ->
+    c10_domain E re_ok q = true -> FreeSpell.spells E q t ->
+    exists q', compile E re_ok t = Ok q' /\ norm_query q' = norm_query q.
+Proof. exact FreeParseProofs.free_spelling. Qed.
+Print Assumptions C07_accept_spelled.
 
 (* concrete instances of every rejection the property names, and of acceptance (non-vacuity) *)
 Example C07_examples :
